@@ -48,7 +48,9 @@ def cases(draw, tier):
     case = {"table": spec, "what": what, "axis": draw(ops.AX),
             "inplace": draw(st.booleans()),
             # the flag as a numpy boolean (true/false, but not True/False)
-            "npflag": draw(st.sampled_from([False, False, True]))}
+            "npflag": draw(st.sampled_from([False, False, True])),
+            # arguments passed positionally, in the documented order
+            "positional": draw(st.sampled_from([False, False, True]))}
     if what == "transform":
         case["fn"] = draw(st.sampled_from(FNS))
     if what == "rankdata":
@@ -211,7 +213,8 @@ def check(case, rec):
             calls.append((sorted(np.array(v, dtype=float).tolist()), str(i),
                           observe.plain(md) if md is not None else None))
             return pure(v, str(i), md)
-        r = t.transform(spy, axis=axis, inplace=inplace)
+        r = t.transform(spy, axis, inplace) if case.get("positional") else \
+            t.transform(spy, axis=axis, inplace=inplace)
         if sorted(c[1] for c in calls) != sorted(ids):
             bad("spy-ids", "function called for ids %r, axis ids %r" %
                 ([c[1] for c in calls], ids))
@@ -243,7 +246,8 @@ def check(case, rec):
         return
 
     if what == "norm":
-        r = t.norm(axis=axis, inplace=inplace)
+        r = t.norm(axis, inplace) if case.get("positional") else \
+            t.norm(axis=axis, inplace=inplace)
         want_v = []
         for v in vecs:
             s = sum(v)
@@ -259,7 +263,8 @@ def check(case, rec):
         return
 
     if what == "pa":
-        r = t.pa(inplace=inplace)
+        r = t.pa(inplace) if case.get("positional") else \
+            t.pa(inplace=inplace)
         expect(r, [[1.0 if x != 0 else 0.0 for x in row]
                    for row in ref.rows], "pa")
         rec.nt(nt)
@@ -269,7 +274,8 @@ def check(case, rec):
         import scipy.stats
         method = case["method"]
         rec.cls("rank:" + method)
-        r = t.rankdata(axis=axis, inplace=inplace, method=method)
+        r = t.rankdata(axis, inplace, method) if case.get("positional") \
+            else t.rankdata(axis=axis, inplace=inplace, method=method)
         want_v = []
         skip_cmp = set()
         for k, v in enumerate(vecs):
